@@ -22,17 +22,8 @@ DESIGN_REF = {"C05": "4/C05", "C06": "4/C06", "C15": "4/C15"}
 
 
 def main():
-    import importlib
-    reg = {}
-    for mod in ("props_dynamic", "props_static", "props_seg", "props_variants", "props_md", "props_misc"):
-        try:
-            m = importlib.import_module(mod)
-        except ModuleNotFoundError as e:
-            if e.name != mod:
-                raise
-            continue
-        for c in m.CHECKS:
-            reg[c.id] = c
+    from registry import registry
+    reg = registry()
     props = [json.loads(l)["id"] for l in open(os.path.join(VERIF, "properties.jsonl"))]
     hooks = subprocess.run(["git", "-C", "/repo", "log", "--format=%H %s"], capture_output=True, text=True).stdout.splitlines()
     hook_commits = [h.split()[0] for h in hooks if "verif hook" in h]
